@@ -98,10 +98,12 @@ type matchAlt struct {
 	Entries []matchSpec
 	// Core marks the alphabet used for the quick tier's length-3 lists.
 	Core bool
-	// G2 marks the alphabet of the two-Gateway shape; G2Only alternatives (they name the second
+	// G2 marks the alphabet of the two-Gateway shape; Extra alternatives (they name the second
 	// Gateway) are enumerated in that shape only.
-	G2     bool
-	G2Only bool
+	G2    bool
+	Extra bool
+	// S2 marks the alphabet of the two-servers-of-one-Gateway shape.
+	S2 bool
 }
 
 const (
@@ -158,11 +160,13 @@ var matchAlphabet = []matchAlt{
 	// "Note: The keys uri, scheme, method, and authority will be ignored." (headers)
 	{Name: "hdr-reserved-key-method", Entries: []matchSpec{{Headers: h("method", exact("GET"))}}},
 	// two Gateways on one port (shape G2): rules restricted to one of them
-	{Name: "gw-gw2", G2: true, G2Only: true, Entries: []matchSpec{{Gateways: []string{"gw2"}}}},
-	{Name: "gw-gw+uri-prefix", G2: true, G2Only: true, Entries: []matchSpec{{Gateways: []string{"gw"}, URI: prefix("/foo")}}},
-	{Name: "gw-gw2+uri-prefix", G2: true, G2Only: true, Entries: []matchSpec{{Gateways: []string{"gw2"}, URI: prefix("/foo")}}},
-	{Name: "gw-gw+gw2", G2: true, G2Only: true, Entries: []matchSpec{{Gateways: []string{"gw", "gw2"}}}},
-	{Name: "or-gw-uri/gw2", G2: true, G2Only: true, Entries: []matchSpec{{Gateways: []string{"gw"}, URI: exact("/foo")}, {Gateways: []string{"gw2"}}}},
+	{Name: "gw-gw2", G2: true, Extra: true, Entries: []matchSpec{{Gateways: []string{"gw2"}}}},
+	{Name: "gw-gw+uri-prefix", G2: true, Extra: true, Entries: []matchSpec{{Gateways: []string{"gw"}, URI: prefix("/foo")}}},
+	{Name: "gw-gw2+uri-prefix", G2: true, Extra: true, Entries: []matchSpec{{Gateways: []string{"gw2"}, URI: prefix("/foo")}}},
+	{Name: "gw-gw+gw2", G2: true, Extra: true, Entries: []matchSpec{{Gateways: []string{"gw", "gw2"}}}},
+	{Name: "or-gw-uri/gw2", G2: true, Extra: true, Entries: []matchSpec{{Gateways: []string{"gw"}, URI: exact("/foo")}, {Gateways: []string{"gw2"}}}},
+	// three match entries in one rule (shape S2: a route list of length 3)
+	{Name: "or3-uri/uri/hdr", S2: true, Extra: true, Entries: []matchSpec{{URI: exact("/fo")}, {URI: prefix("/bar")}, {Headers: h(hdr, exact("v1"))}}},
 }
 
 func init() {
@@ -170,6 +174,10 @@ func init() {
 		switch matchAlphabet[i].Name {
 		case "none", "uri-exact", "uri-prefix", "hdr-exact", "port-8080", "gw-gw", "gw-mesh":
 			matchAlphabet[i].G2 = true
+		}
+		switch matchAlphabet[i].Name {
+		case "none", "uri-exact", "uri-regex", "hdr-exact", "port-8080", "gw-mesh", "gw-gw", "or-uri-hdr":
+			matchAlphabet[i].S2 = true
 		}
 	}
 }
@@ -250,6 +258,9 @@ type ruleSpec struct {
 }
 
 func (r ruleSpec) String() string {
+	if r.Action == -2 {
+		return matchAlphabet[r.Match].Name + "=>" + otherAction2.Name
+	}
 	if r.Action < 0 {
 		return matchAlphabet[r.Match].Name + "=>" + otherAction.Name
 	}
@@ -293,11 +304,25 @@ const (
 	// [a.example.com, c.example.com] bound to TWO Gateways of the same workload on the same port:
 	// gw serves a.example.com, gw2 serves c.example.com. Checked on the gateway proxy only.
 	shapeG2 = nShapes
+	// shapeS2: ONE Gateway gw with TWO servers on port 80 (a.example.com; c.example.com). The enumerated
+	// VirtualService vs-main has hosts [a.example.com, c.example.com] and is the oldest for both; each
+	// host has a further, younger VirtualService (vs-a -> d3, vs-c -> d4, both on uri prefix /foo).
+	// Gateway proxy only.
+	shapeS2 = nShapes + 1
+	// shapeK: Kubernetes-style names: services api.internal.svc.cluster.local and api.internal (the
+	// latter equals a short form of the former for a client in another namespace); the enumerated
+	// VirtualService is on the long name (or, KShort, on the short one).
+	shapeK = nShapes + 2
 )
 
-const hostC = "c.example.com"
+const (
+	hostC      = "c.example.com"
+	hostD4     = "d4.dest.test" // single port 80; target of vs-c in shape S2
+	hostKLong  = "api.internal.svc.cluster.local"
+	hostKShort = "api.internal"
+)
 
-var shapeNames = []string{"A", "W", "AW", "WA", "G2"}
+var shapeNames = []string{"A", "W", "AW", "WA", "G2", "S2", "K"}
 
 // top-level gateways binding of the enumerated VirtualService
 const (
@@ -331,21 +356,22 @@ type caseSpec struct {
 	Split int `json:"split,omitempty"`
 	// Gw2First (shape G2): the Gateway gw2 is older than gw
 	Gw2First bool `json:"gw2first,omitempty"`
+	// KShort (shape K): the VirtualService is on api.internal instead of api.internal.svc.cluster.local
+	KShort bool `json:"kshort,omitempty"`
 }
 
 // gatewayFor: the Gateway resource whose server admits the host ("" = none). This is how a gateway
 // proxy's requests are attributed to a name of the `gateways` lists.
 func (c caseSpec) gatewayFor(host string) string {
-	if c.Shape != shapeG2 {
-		return "gw" // its server has hosts ["*"]
-	}
-	switch host {
-	case hostA:
+	switch {
+	case c.Shape == shapeG2 && host == hostA, c.Shape == shapeS2 && (host == hostA || host == hostC):
 		return "gw"
-	case hostC:
+	case c.Shape == shapeG2 && host == hostC:
 		return "gw2"
+	case c.Shape == shapeG2 || c.Shape == shapeS2:
+		return ""
 	}
-	return ""
+	return "gw" // its server has hosts ["*"]
 }
 
 func (c caseSpec) String() string {
@@ -356,8 +382,13 @@ func (c caseSpec) String() string {
 	if c.Split > 0 {
 		rs[c.Split-1] += " ||"
 	}
-	if c.Shape == shapeG2 {
+	switch c.Shape {
+	case shapeG2:
 		return fmt.Sprintf("G2 gw2first=%v [%s]", c.Gw2First, strings.Join(rs, " ; "))
+	case shapeS2:
+		return fmt.Sprintf("S2 [%s]", strings.Join(rs, " ; "))
+	case shapeK:
+		return fmt.Sprintf("K vs-on-short-name=%v [%s]", c.KShort, strings.Join(rs, " ; "))
 	}
 	return fmt.Sprintf("%s svc=%v dr=%v bind=%s [%s]", shapeNames[c.Shape], c.Svc, c.DR, bindNames[c.Bind], strings.Join(rs, " ; "))
 }
@@ -375,9 +406,24 @@ var otherAction = actionSpec{Name: "route-d3", Route: []destSpec{{Host: hostD3}}
 func (c caseSpec) virtualServices() []vsSpec {
 	main := vsSpec{Name: "vs-main", Gateways: bindGateways(c.Bind), Rules: c.Rules, Created: tBase.Add(2 * time.Hour)}
 	other := vsSpec{Name: "vs-other", Gateways: []string{"mesh", "gw"}, Rules: []ruleSpec{otherRule}}
-	if c.Shape == shapeG2 {
+	switch c.Shape {
+	case shapeG2:
 		main.Hosts = []string{hostA, hostC}
 		main.Gateways = []string{"gw", "gw2"}
+		return []vsSpec{main}
+	case shapeS2:
+		main.Hosts = []string{hostA, hostC}
+		main.Gateways = []string{"gw"}
+		main.Created = tBase.Add(1 * time.Hour)
+		uriPrefix := matchIndex("uri-prefix")
+		va := vsSpec{Name: "vs-a", Hosts: []string{hostA}, Gateways: []string{"gw"}, Rules: []ruleSpec{{uriPrefix, -1}}, Created: tBase.Add(2 * time.Hour)}
+		vc := vsSpec{Name: "vs-c", Hosts: []string{hostC}, Gateways: []string{"gw"}, Rules: []ruleSpec{{uriPrefix, -2}}, Created: tBase.Add(3 * time.Hour)}
+		return []vsSpec{main, va, vc}
+	case shapeK:
+		main.Hosts = []string{hostKLong}
+		if c.KShort {
+			main.Hosts = []string{hostKShort}
+		}
 		return []vsSpec{main}
 	}
 	if c.Split > 0 {
@@ -408,7 +454,21 @@ func (c caseSpec) virtualServices() []vsSpec {
 	panic("c12: bad shape")
 }
 
+func matchIndex(name string) int {
+	for i, m := range matchAlphabet {
+		if m.Name == name {
+			return i
+		}
+	}
+	panic("c12: no match alternative " + name)
+}
+
+var otherAction2 = actionSpec{Name: "route-d4", Route: []destSpec{{Host: hostD4}}}
+
 func (v vsSpec) action(r ruleSpec) actionSpec {
+	if r.Action == -2 {
+		return otherAction2
+	}
 	if r.Action < 0 {
 		return otherAction
 	}
@@ -422,6 +482,14 @@ func (c caseSpec) servicePorts() map[string][]int {
 	m := map[string][]int{hostD1: {80}, hostD2: {80, 8080}, hostD3: {80}}
 	if c.Svc {
 		m[hostA] = []int{80, 8080}
+	}
+	if c.Shape == shapeS2 {
+		m[hostD4] = []int{80}
+	}
+	if c.Shape == shapeK {
+		delete(m, hostA)
+		m[hostKLong] = []int{80, 8080}
+		m[hostKShort] = []int{80, 8080}
 	}
 	return m
 }
@@ -456,7 +524,15 @@ func (c caseSpec) configs() []config.Config {
 			},
 		}
 	}
-	if c.Shape == shapeG2 {
+	if c.Shape == shapeS2 {
+		g := gwCfg("gw", tBase, hostA)
+		g.Spec.(*networking.Gateway).Servers[0].Port.Name = "http-a"
+		g.Spec.(*networking.Gateway).Servers = append(g.Spec.(*networking.Gateway).Servers, &networking.Server{
+			Port:  &networking.Port{Number: 80, Name: "http-c", Protocol: "HTTP"},
+			Hosts: []string{hostC},
+		})
+		out = append(out, g, se("d4", hostD4, "10.0.0.5", 80))
+	} else if c.Shape == shapeG2 {
 		t1, t2 := tBase, tBase.Add(time.Hour)
 		if c.Gw2First {
 			t1, t2 = t2, t1
@@ -465,8 +541,11 @@ func (c caseSpec) configs() []config.Config {
 	} else {
 		out = append(out, gwCfg("gw", tBase, "*"))
 	}
-	if c.Svc {
+	if c.Svc && c.Shape != shapeK {
 		out = append(out, se("a", hostA, "10.0.0.1", 80, 8080))
+	}
+	if c.Shape == shapeK {
+		out = append(out, se("k-long", hostKLong, "10.0.1.1", 80, 8080), se("k-short", hostKShort, "10.0.1.2", 80, 8080))
 	}
 	if c.DR {
 		out = append(out, config.Config{
@@ -616,8 +695,11 @@ func (c caseSpec) requests() []request {
 	}
 	var out []request
 	auths := authoritiesAll
-	if c.Shape == shapeG2 {
+	switch c.Shape {
+	case shapeG2, shapeS2:
 		auths = []string{"a.example.com", "c.example.com", "C.Example.COM:80", "b.example.com", "other.test"}
+	case shapeK:
+		auths = []string{hostKLong, "api.internal.svc", hostKShort, "API.Internal:80", hostKLong + ":8080", "api", "other.test"}
 	}
 	for _, a := range auths {
 		for _, p := range paths {
